@@ -42,9 +42,14 @@ def return_exceptions(call: ast.Call) -> bool:
 
 def is_exc_filter(sh: CompShape, var_only: bool = True) -> tuple[bool, bool]:
     """(is a filter `isinstance(x, BaseException)` [possibly negated] on a loop variable, negated?)"""
-    if not sh.filtered or len(sh.comp.generators[0].ifs) != 1:
+    if not sh.filtered:
         return False, False
-    t = sh.comp.generators[0].ifs[0]
+    if isinstance(sh.comp, (ast.For, ast.AsyncFor)):
+        t = getattr(sh, "filter_expr", None) or sh.comp.body[0].test
+    elif len(sh.comp.generators[0].ifs) == 1:
+        t = sh.comp.generators[0].ifs[0]
+    else:
+        return False, False
     neg = False
     while isinstance(t, ast.UnaryOp) and isinstance(t.op, ast.Not):
         neg = not neg
@@ -164,10 +169,7 @@ def check(an: Analysis) -> None:
             else:
                 c2, sh2 = rb
                 ob.inst(aenter, c2, "rollback")
-                ok_filter, neg = is_exc_filter(sh2)
-                it = unwrap(sh2.iter)
-                zipped = isinstance(it, ast.Call) and is_name(it.func, "zip") and len(it.args) == 2 and dotted(it.args[0]) == "self._disposables" and "call:asyncio.gather" in de.origins(it.args[1])
-                if not (zipped and ok_filter and neg):
+                if not _is_entered_subset(an, aenter, de, sh2):
                     ob.fail(aenter, c2, "the roll-back does not exit exactly the disposables whose enter succeeded (zip(self._disposables, results) filtered by `not isinstance(result, BaseException)`)")
                 if not return_exceptions(c2):
                     ob.fail(aenter, c2, "roll-back gather without return_exceptions=True: a failing cleanup hides the original enter error and abandons the other cleanups")
@@ -198,7 +200,7 @@ def check(an: Analysis) -> None:
             targets = ge.exc_succ_for(aw[0], "CancelledError")
             protected = any(t.kind == "handler" for t in targets)
             if not protected:
-                ob.fail(aenter, aw[0].ast, "cancellation delivered while the disposables are being entered concurrently leaves the ones that already entered without exit")
+                ob.fail(aenter, aw[0].ast, "cancellation delivered while the disposables are being entered concurrently leaves the ones that already entered without exit", construct="await gather(<enter fan-out>)")
 
     # ------------------------------------------------------------------ C08.6 scope integration
     ob = an.ob("C08.6", "K1", "ScopeContext enters the disposables (awaited) before state/metrics are entered, and exits them exactly once per exit path on which they are present", ["context.access.ScopeContext.__aenter__", "context.access.ScopeContext.__aexit__"])
@@ -232,56 +234,89 @@ def check(an: Analysis) -> None:
             ob.fail(sa, dxn[0].ast, f"disposables can be exited {hi} times on one path through the scope exit")
 
     # ------------------------------------------------------------------ C08.7 normalisation of what a disposable yields
-    ob = an.ob("C08.7", "K2", "_initialize: None -> (), a single State -> (state,), otherwise the yielded iterable itself", [f"{D}._initialize"])
-    ms = [n for n in init_.own_nodes() if isinstance(n, ast.Match)]
-    if len(ms) != 1:
-        raise AnalysisError("C08.7: _initialize is expected to normalise through one match statement")
-    m = ms[0]
-    if not (isinstance(m.subject, ast.Await) and ents and m.subject is ents[0].ast):
-        ob.fail(init_, m, "the value being normalised is not the result of disposable.__aenter__()")
-    arms = {"none": False, "state": False, "other": False}
-    state_q = prog.cls("state.structure.State").qualname
-    for case in m.cases:
-        ob.inst(init_, case)
-        rets = [r for s in case.body for r in ast.walk(s) if isinstance(r, ast.Return)]
-        pat = case.pattern
-        if isinstance(pat, ast.MatchSingleton) and pat.value is None:
-            arms["none"] = bool(rets) and all(isinstance(r.value, (ast.Tuple, ast.List)) and not r.value.elts for r in rets)
-        elif isinstance(pat, ast.MatchAs) and isinstance(pat.pattern, ast.MatchClass) and prog.resolve_dotted(init_, pat.pattern.cls) == state_q and not pat.pattern.patterns and not pat.pattern.kwd_patterns:
-            arms["state"] = bool(rets) and all(isinstance(r.value, (ast.Tuple, ast.List)) and len(r.value.elts) == 1 and is_name(r.value.elts[0], pat.name) for r in rets)
-        elif isinstance(pat, ast.MatchAs) and pat.pattern is None and pat.name and case.guard is None:
-            arms["other"] = bool(rets) and all(is_name(r.value, pat.name) for r in rets)
-            uses = [x for s_ in case.body for x in ast.walk(s_) if isinstance(x, ast.Name) and x.id == pat.name]
-            if len(uses) != len(rets):
-                ob.fail(init_, case, "the yielded iterable is touched before it is handed on: a one-shot iterable (generator, map, iterator) is consumed and its state silently lost")
-        else:
-            ob.fail(init_, case, "unexpected arm: some yielded values are dropped or mis-wrapped")
-    for k, ok in arms.items():
-        if not ok:
-            ob.fail(init_, m, f"the `{k}` arm of the normalisation is missing or returns the wrong shape")
+    ob = an.ob("C08.7", "K2", "_initialize: None -> (), a single State -> (state,), otherwise the yielded iterable itself, untouched (evaluated for the three kinds of value a disposable can yield; works for match and if/isinstance forms)", [f"{D}._initialize"])
+    from ..kinds import Abs, Scenario
+
+    di_ = Deps(prog, init_)
+    if not ents:
+        ob.fail(init_, None, "the value being normalised is not the result of disposable.__aenter__()")
+    else:
+        entered = ents[0].ast  # the Await node
+
+        def env_for(value):
+            def env(e: ast.AST):
+                if e is entered:
+                    return value
+                return NOVALUE
+
+            return env
+
+        a_state = Abs("State", "object", tag="state")
+        a_iter = Abs("list", "object", tag="iterable")
+        rets_all = [n for n in gi.nodes if n.kind == "return"]
+        yielded_names = {x.id for x in ast.walk(init_.node) if isinstance(x, ast.Name) and di_.origins(x) and "expr" not in di_.origins(x) and _is_entered_value(di_, x, entered)}
+        for label, value in (("None", None), ("a single State", a_state), ("an iterable of states", a_iter)):
+            sc = Scenario(gi, di_, env_for(value))
+            live = [r for r in rets_all if r.id in sc.reach]
+            ob.inst(init_, None, f"yielded {label}: {len(live)} reachable return(s)")
+            if not live:
+                ob.fail(init_, None, f"_initialize has no return for a disposable yielding {label}")
+            for r in live:
+                v = unwrap(r.ast.value)  # type: ignore[union-attr]
+                if label == "None":
+                    ok = isinstance(v, (ast.Tuple, ast.List)) and not v.elts
+                    msg = "a disposable yielding None must contribute no state"
+                elif label == "a single State":
+                    ok = isinstance(v, (ast.Tuple, ast.List)) and len(v.elts) == 1 and isinstance(v.elts[0], ast.Name) and v.elts[0].id in yielded_names
+                    msg = "a single yielded State is dropped or mis-wrapped"
+                else:
+                    ok = isinstance(v, ast.Name) and v.id in yielded_names
+                    msg = "the yielded iterable is not handed on as is"
+                if not ok:
+                    ob.fail(init_, r.ast, msg + f" (returns `{stmt_text(v) if v is not None else 'None'}`)")
+        # linear use: on the path that hands the iterable on, it is not touched before
+        sc = Scenario(gi, di_, env_for(a_iter))
+        for n in gi.nodes:
+            if n.id in sc.reach and n.kind in ("call", "comp", "for-iter") and n.ast is not None:
+                names_used = {x.id for x in ast.walk(n.ast if n.kind != "for-iter" else n.ast.iter) if isinstance(x, ast.Name)}  # type: ignore[union-attr]
+                if names_used & yielded_names and not (n.kind == "call" and isinstance(n.ast.func, ast.Name) and n.ast.func.id == "isinstance"):  # type: ignore[union-attr]
+                    ob.fail(init_, n.ast, "the yielded iterable is touched before it is handed on: a one-shot iterable (generator, map, iterator) is consumed and its state silently lost")
 
     # ------------------------------------------------------------------ C08.8 all yielded state flows out
     ob = an.ob("C08.8", "K5", "the collection returned by Disposables.__aenter__ is the flattening of every _initialize result (none dropped on the success path)", [f"{D}.__aenter__"])
     rets = [n for n in aenter.own_nodes() if isinstance(n, ast.Return)]
     if not rets:
         ob.fail(aenter, None, "__aenter__ returns nothing: state yielded by disposables is lost")
+    from ..domains import comp_of
+
     for r in rets:
         ob.inst(aenter, r)
         v = unwrap(r.value)
+        src = None
+        sh = None
         inner = None
         if isinstance(v, (ast.List, ast.Tuple)) and len(v.elts) == 1 and isinstance(v.elts[0], ast.Starred):
             inner = unwrap(v.elts[0].value)
         elif isinstance(v, ast.Call) and an.callee(aenter, v) in ("builtins.list", "builtins.tuple") and len(v.args) == 1:
             inner = unwrap(v.args[0])
-        if not (isinstance(inner, ast.Call) and an.callee(aenter, inner) == "itertools.chain.from_iterable" and len(inner.args) == 1):
-            ob.fail(aenter, r, "the result is not the flattening (chain.from_iterable) of the per-disposable results")
-            continue
-        src = unwrap(inner.args[0])
-        sh = CompShape(src) if isinstance(src, (ast.GeneratorExp, ast.ListComp)) else None
-        if sh is not None and sh.ok:
-            names = sh.target_names()
-            if not (len(names) == 1 and is_name(sh.elt, names[0])):
-                ob.fail(aenter, r, "per-disposable results are transformed before flattening")
+        if isinstance(inner, ast.Call) and an.callee(aenter, inner) == "itertools.chain.from_iterable" and len(inner.args) == 1:
+            src = unwrap(inner.args[0])
+            sh = comp_of(de, src)
+            if sh is not None:
+                names = sh.target_names()
+                if not (len(names) == 1 and is_name(sh.elt, names[0])):
+                    ob.fail(aenter, r, "per-disposable results are transformed before flattening")
+        else:
+            vc = comp_of(de, v)
+            if vc is not None and getattr(vc, "flatten", False):
+                sh = vc
+                names = sh.target_names()
+                if not (len(names) == 1 and is_name(sh.elt, names[0])):
+                    ob.fail(aenter, r, "per-disposable results are transformed before flattening")
+            else:
+                ob.fail(aenter, r, "the result is not the flattening (chain.from_iterable / extend loop) of the per-disposable results")
+                continue
+        if sh is not None:
             if sh.filtered:
                 ok, neg = is_exc_filter(sh)
                 if not (ok and neg):
@@ -289,6 +324,40 @@ def check(an: Analysis) -> None:
             src = sh.iter
         if "call:asyncio.gather" not in de.origins(src) or (enter_g and not _flows_from(de, src, enter_g[0])):
             ob.fail(aenter, r, "the returned state does not come from the enter fan-out")
+
+
+def _is_entered_subset(an: Analysis, fi: FunctionInfo, d: Deps, sh: CompShape, depth: int = 3) -> bool:
+    """The fan-out `sh` runs over exactly the disposables whose enter result is not an exception."""
+    from ..domains import comp_of
+
+    ok_filter, neg = is_exc_filter(sh)
+    it = unwrap(sh.iter)
+
+    def zipped(e: ast.AST | None) -> bool:
+        e = unwrap(e)
+        return isinstance(e, ast.Call) and is_name(e.func, "zip") and len(e.args) == 2 and dotted(e.args[0]) == "self._disposables" and "call:asyncio.gather" in d.origins(e.args[1])
+
+    if zipped(it) and ok_filter and neg:
+        names = sh.target_names()
+        return len(names) == 2
+    if depth > 0 and not sh.filtered:
+        inner = comp_of(d, it)
+        if inner is not None and not inner.is_dict:
+            names = inner.target_names()
+            if len(names) == 2 and is_name(inner.elt, names[0]):
+                return _is_entered_subset(an, fi, d, inner, depth - 1)
+    return False
+
+
+def _is_entered_value(d: Deps, name: ast.Name, entered: ast.AST) -> bool:
+    """Is the local `name` bound to the value of the awaited disposable.__aenter__() (match capture / assignment)?"""
+    owner = d.owner(name.id)
+    if owner is None:
+        return False
+    for kind, node in d.defs(owner, name.id):
+        if kind == "value" and unwrap(node) is entered:
+            return True
+    return False
 
 
 def _flows_from(d: Deps, e: ast.AST, call: ast.Call) -> bool:
@@ -304,17 +373,25 @@ def _flows_from(d: Deps, e: ast.AST, call: ast.Call) -> bool:
 
 
 def _error_collections(an: Analysis, fi: FunctionInfo, d: Deps, gather: ast.Call | None) -> list[str]:
-    """Names of locals holding `[x for x in <gather results> if isinstance(x, BaseException)]`."""
+    """Names of locals holding the BaseException results of a gather: a comprehension
+    `[x for x in results if isinstance(x, BaseException)]` or the equivalent accumulation loop."""
+    from ..domains import comp_of
+
     names = []
+    seen = set()
     for n in fi.own_nodes():
         if isinstance(n, (ast.Assign, ast.AnnAssign)) and n.value is not None:
             t = n.targets[0] if isinstance(n, ast.Assign) else n.target
-            sh = CompShape(unwrap(n.value))
-            if isinstance(t, ast.Name) and sh.ok and not sh.is_dict:
-                ok, neg = is_exc_filter(sh)
-                tn = sh.target_names()
-                if ok and not neg and len(tn) == 1 and is_name(sh.elt, tn[0]) and "call:asyncio.gather" in d.origins(sh.iter):
-                    names.append(t.id)
+            if not isinstance(t, ast.Name) or t.id in seen:
+                continue
+            sh = comp_of(d, ast.Name(id=t.id, ctx=ast.Load()))
+            if sh is None or sh.is_dict or getattr(sh, "flatten", False):
+                continue
+            ok, neg = is_exc_filter(sh)
+            tn = sh.target_names()
+            if ok and not neg and len(tn) == 1 and is_name(sh.elt, tn[0]) and "call:asyncio.gather" in d.origins(sh.iter):
+                names.append(t.id)
+                seen.add(t.id)
     return names
 
 
@@ -345,7 +422,9 @@ def _collected_errors_surface(an: Analysis, ob, fi: FunctionInfo, g: CFG, d: Dep
             ob.fail(fi, w[-2].ast if len(w) > 1 and w[-2].ast is not None else None, f"with {k} failing cleanup(s) Disposables.__aexit__ returns normally: the error vanishes", CFG.show_path(w))
         reach = g.reachable([g.entry], skip_edge=sc)
         for r in [r for r in raises if r.id in reach]:
-            if not any(nm in {x.id for x in ast.walk(r.ast) if isinstance(x, ast.Name)} for nm in errs):
+            direct = any(nm in {x.id for x in ast.walk(r.ast) if isinstance(x, ast.Name)} for nm in errs)
+            via = "call:asyncio.gather" in d.of(r.ast.exc)  # type: ignore[union-attr]
+            if not (direct or via):
                 ob.fail(fi, r.ast, "what is raised does not carry the collected cleanup errors")
     sc = scenario(g, _len_env(d, errs, 0))
     w = g.search([g.entry], lambda n: n in raises, skip_edge=sc)
